@@ -41,6 +41,35 @@ def angle(a, b) -> np.ndarray:
     return 2 * np.arctan2(norm(p), norm(q))
 
 
+def norm_blocks(a, block=1 << 15) -> np.ndarray:
+    """``norm`` evaluated in blocks of rows (bounded long-double temporaries)."""
+    a = np.asarray(a)
+    n = int(np.prod(a.shape[:-1], dtype=np.int64))
+    if n <= block:
+        return norm(a)
+    f = a.reshape(n, 3)
+    out = np.empty(n, dtype=LD)
+    for i in range(0, n, block):
+        out[i:i + block] = norm(f[i:i + block])
+    return out.reshape(a.shape[:-1])
+
+
+def angle_blocks(a, b, block=1 << 15) -> np.ndarray:
+    """``angle`` of broadcast (..., 3) operands, element for element the same numbers, evaluated in
+    blocks of rows so that the long-double temporaries stay small for millions of vectors."""
+    a, b = np.asarray(a), np.asarray(b)
+    shape = np.broadcast_shapes(a.shape, b.shape)
+    n = int(np.prod(shape[:-1], dtype=np.int64))
+    if n <= block:
+        return angle(np.broadcast_to(a, shape), np.broadcast_to(b, shape))
+    fa = None if a.ndim == 1 else np.broadcast_to(a, shape).reshape(n, 3)
+    fb = None if b.ndim == 1 else np.broadcast_to(b, shape).reshape(n, 3)
+    out = np.empty(n, dtype=LD)
+    for i in range(0, n, block):
+        out[i:i + block] = angle(a if fa is None else fa[i:i + block], b if fb is None else fb[i:i + block])
+    return out.reshape(shape[:-1])
+
+
 def angle_mp(a, b, dps=50):
     """Same angle with mpmath from exact float inputs: atan2(|a x b|, a . b)."""
     import mpmath as mp
